@@ -96,10 +96,11 @@ PROPS['C04'] = {
     'level': 'exploration', 'budget': {'quick': 70, 'thorough': 1200},
     'parts': [{'sim': 'flowcontrol', 'share': 2}, {'sim': 'transfer', 'share': 2, 'env': {'VERIF_ORACLES': 'C04'}},
               {'sim': 'sendstream', 'share': 1}, {'sim': 'sendstream', 'mode': 'sweep', 'share': 0.5},
-              {'sim': 'limits', 'share': 0.8, 'env': {'VERIF_ORACLES': 'C12'}}],
+              {'sim': 'limits', 'share': 0.8, 'env': {'VERIF_ORACLES': 'C12'}}, {'sim': 'recvstream', 'share': 0.7}],
     'rule': 'K:flowcontrol: seeded histories over real send- and receive-side controllers of 1-40 streams sharing a connection window, joined by a channel that loses, duplicates and reorders data and MAX_* updates, '
             'with reads, abandons, auto-tuning at RTTs from microseconds to seconds, 0-RTT reset and an adversarial sender; W:transfer: wiretap checks that new stream bytes never exceed the credit delivered to the sender; '
             'K:sendstream: real SendStreams + flow controllers + framer against a byte-state model (writes, resets with a reliable size, STOP_SENDING, loss/ack in any order, stale and duplicate credit, 0-RTT rejection) with a bounded sweep; '
+            'K:recvstream (C03 engine): a real ReceiveStream on real controllers - whatever way the stream ends (read to the end, reset with or without a reliable size, cancelled read, in any order) every byte up to the final size must have been handed back as connection-level credit when the stream completes; '
             'W:limits: a server that uses every advertised window to the full against a spec-driven or plain client (the receive side of the credit contract); '
             'non-trivial = a fault fired; distinct = distinct abstract histories / wire traces',
     'real_vs_stub': 'K: real flow controllers + RTT stats, real SendStream/framer, model streams/channel/packer; W: real endpoints, stub network',
